@@ -803,7 +803,7 @@ func genCall(r *common.Rng, f *fspec, maxLen int) *call {
 			c.key = common.Pick(r, keyNames)
 		}
 		if f.hasTest {
-			genTest(55, 8)
+			genTest(50, 14)
 		}
 	case "assoc":
 		c.s2 = make([]int, n)
@@ -818,7 +818,7 @@ func genCall(r *common.Rng, f *fspec, maxLen int) *call {
 			c.key = common.Pick(r, keyNames)
 		}
 		if f.hasTest {
-			genTest(60, 6)
+			genTest(55, 12)
 		}
 	case "search":
 		c.s2 = c.s1
@@ -876,7 +876,7 @@ func genCall(r *common.Rng, f *fspec, maxLen int) *call {
 		if r.Chance(35) {
 			c.key = common.Pick(r, keyNames)
 		}
-		genTest(45, 5)
+		genTest(42, 12)
 		c.fromEnd = r.Chance(50)
 	case "mismatch":
 		// sequence-2: sequence-1 with a change, a cut or an extension at either end
@@ -903,7 +903,7 @@ func genCall(r *common.Rng, f *fspec, maxLen int) *call {
 		if r.Chance(35) {
 			c.key = common.Pick(r, keyNames)
 		}
-		genTest(45, 5)
+		genTest(42, 12)
 		c.fromEnd = r.Chance(50)
 	case "subseq":
 		c.start, c.end = genBounds(r, n, 100, 60, 10)
@@ -993,7 +993,7 @@ func genCall(r *common.Rng, f *fspec, maxLen int) *call {
 		if r.Chance(45) {
 			c.key = common.Pick(r, keyNames)
 		}
-		genTest(55, 6)
+		genTest(52, 12)
 	case "quant":
 		if r.Chance(35) {
 			c.nseq = 2
